@@ -903,8 +903,31 @@ def check_c14(env, fam, L):
             bad = o1 if o1.kind != "ok" else o2
             env.violation({"kind": "compile", "family": "discriminated", "exc": bad.exc or "ValidationError", "site": bad.site}, {"program": prog, "outcome": bad.brief()})
             continue
+        from vf.checks.c14 import polite_wrong_coercer
+        o3 = harness.call(deserialization_method, T, coerce=polite_wrong_coercer, **kw)
+        o4 = None
+        if kind in ("bare", "subset"):
+            wrong = rng.choice(["", [], 0, "oops", None])
+
+            def rude_object_coercer(cls, data, wrong=wrong):
+                return wrong if cls is dict else data  # wrong-typed result at every object position, even for a dict
+
+            o4 = harness.call(deserialization_method, T, coerce=rude_object_coercer, **kw)
         for dl, d in workload(fam, kind, rng, None, per_alt=2):
             r = harness.call(o1.value, d)
+            if o4 is not None and o4.kind == "ok":
+                rr = harness.call(o4.value, d)
+                env.count("discriminated_wrong_coercer_checks")
+                if rr.kind != "verr":  # an object is expected at the root: its coerced value is never one
+                    env.violation({"kind": "wrong-typed-coercer-result-accepted" if rr.kind == "ok" else "custom-coercer-exception", "family": "discriminated", "exc": rr.exc, "coercer": "rude-object"},
+                                  {"program": prog, "family": fam.describe(), "entry": label, "datum": d, "coercer_returns_for_dict": repr(wrong), "observed": rr.brief()})
+            if o3.kind == "ok" and r.kind in ("ok", "verr"):
+                # a coercer whose results are wrong-typed whenever it has something to do changes nothing: results are type-checked
+                rw = harness.call(o3.value, d)
+                env.count("discriminated_wrong_coercer_checks")
+                if rw.kind != r.kind:
+                    env.violation({"kind": "wrong-typed-coercer-result-changes-verdict" if rw.kind != "exc" else "custom-coercer-exception", "family": "discriminated", "strict": r.kind, "coerced": rw.kind, "exc": rw.exc},
+                                  {"program": prog, "family": fam.describe(), "entry": label, "datum": d, "strict": r.brief(), "with_coercer": rw.brief()})
             if r.kind != "ok":
                 continue
             rc = harness.call(o2.value, d)
